@@ -120,7 +120,9 @@ def check(ctx, replay=None):
         if dest == "existing":
             with open(real_outf, "w") as f:
                 f.write(PRIOR_YAML if fmt == "config" else PRIOR_CODE)
-        args = [os.path.join(d, "seccomp-profiler"), "-format", fmt] + ([] if dest == "stdout" else ["-out", outf]) + flag_args("-b", c["bl"], r) + flag_args("-allow", c["al"], r) + [b]
+        # -d puts the debug listing of all discovered sites in front of the profile (config format): the file is still the profile
+        debug = ["-d"] if (fmt == "config" and i % 4 == 1) else []
+        args = [os.path.join(d, "seccomp-profiler"), "-format", fmt] + debug + ([] if dest == "stdout" else ["-out", outf]) + flag_args("-b", c["bl"], r) + flag_args("-allow", c["al"], r) + [b]
         try:
             p = subprocess.run(args, capture_output=True, text=True, timeout=60, env={"PATH": os.path.join(work, "nopath"), "HOME": "/root"}, cwd="/")
         except subprocess.TimeoutExpired:
